@@ -95,9 +95,14 @@ def _decoys(header: str, lines: list[str], mode: int) -> dict[str, list[str]]:
                 order.append(t)
             groups[t].append(ln)
         body = [ln for k, t in enumerate(order) if k % 2 == 0 for ln in groups[t]]
-        # a forced flag on what is now the FIRST note group of the decoy would be invalid: drop that line
-        first_note_tick = next((b.split(" ", 1)[0] for b in body if " = N " in b), None)
-        return [b for b in body if not (b.split(" ", 1)[0] == first_note_tick and " = N 5 " in b)]
+        # a forced flag on what is now the FIRST note group of the decoy would be invalid: drop that line (and if
+        # the group consisted of nothing but that line, look at the group that is first now)
+        while True:
+            first_note_tick = next((b.split(" ", 1)[0] for b in body if " = N " in b), None)
+            kept = [b for b in body if not (b.split(" ", 1)[0] == first_note_tick and " = N 5 " in b)]
+            if len(kept) == len(body):
+                return body
+            body = kept
 
     def rich():
         # a fuller sibling: a plain note on every tick of the target, all of them inside one star-power
